@@ -18,7 +18,7 @@ RULE = ("cases: every op/layer/loss of the two catalogues x operand layout (inde
         "document.  non-trivial: operands share memory / are reused, or the op's kernel uses in-place arithmetic "
         "on an intermediate (conv bias, batch-norm affine, cross-entropy, place_windows, pooling), or the second "
         "graph is built; distinct by hash of the case"
-        " Also: exact zeros among the operands, upstream gradient of the other dtype, batch-norm running-statistic buffers snapshotted around forward and backward.")
+        " Also: exact zeros among the operands, upstream gradient of the other dtype, batch-norm running-statistic buffers snapshotted around forward and backward, operands that no longer require grad but still hold a gradient (frozen after training), the second backward seeded with the live .grad handle of the first root.")
 ASSUMPTIONS = ["Tensor(ndarray) wraps the given array without copying when the dtype matches (so views stay views)",
                "dropout/random constructors are excluded from the bit-identical-repetition assertion (they are C19's)"]
 
@@ -61,6 +61,17 @@ def build_operands(case, layout):
     for t, d in zip(ts, datas):
         if t.data is not d and not np.shares_memory(t.data, d):
             return None, None       # Tensor copied the array: aliasing layouts are not expressible
+    if case.get("stale"):
+        # operands that do not take part in differentiation but still hold a gradient from earlier work
+        # (they were trained, then frozen): that gradient belongs to the caller and must stay as it is
+        for t in ts:
+            if not t.requires_grad and t.is_floating_point:
+                try:
+                    t.requires_grad = True
+                    (t * 1.5).sum().backward()
+                    t.requires_grad = False
+                except Exception:  # noqa: BLE001
+                    pass
     return ts, buf
 
 
@@ -79,6 +90,9 @@ def make_check(op):
         (bystander * 2.0).sum().backward()
         by_before = (_snap(bystander.data), _snap(bystander.grad.data))
         before = [_snap(t.data) for t in ts]
+        frozen = [(i, t, _snap(t.grad.data)) for i, t in enumerate(ts) if not t.requires_grad and t.has_grad()]
+        if frozen:
+            rec.tag("frozen_operand_holding_a_gradient")
         buf_before = _snap(buf) if buf is not None else None
         nnops.LAST.pop("bn_buffers", None)
         try:
@@ -108,6 +122,10 @@ def make_check(op):
                 raise Violation("operand_modified", f"shared buffer changed by {stage}; {ctx}", region=stage.split()[0])
             if (_snap(bystander.data), _snap(bystander.grad.data)) != by_before:
                 raise Violation("bystander_modified", f"bystander tensor changed by {stage}; {ctx}")
+            for i, t, snap in frozen:
+                if not t.has_grad() or _snap(t.grad.data) != snap:
+                    raise Violation("frozen_grad_modified", f"operand {i} does not require grad, yet the gradient it "
+                                                            f"already held was changed by {stage}; {ctx}")
 
         verify("forward")
         out_snap = _snap(o.data)
@@ -141,6 +159,13 @@ def make_check(op):
             # a later graph that reuses the first root as an interior node
             r2 = o * 3.0
             h = Tensor(gen.cyc(case["g"][::-1], r2.shape, dt))
+            if case.get("second_seed") == "first_root_grad" and o.has_grad() and not o.is_leaf:
+                # (a leaf root - eval-mode Dropout hands back its operand - is excluded: its .grad is the accumulator
+                #  the second call is documented to add into, so that handle legitimately changes)
+                # the caller passes on, as upstream gradient, the gradient the first root received: a live handle
+                # to a buffer of a tensor that is now an interior node of the graph being differentiated
+                h = o.grad
+                rec.tag("second_seed_is_first_roots_grad")
             h_before = _snap(h.data)
             try:
                 r2.backward(h)
@@ -162,6 +187,8 @@ def mut_case(draw, op):
     c["args"].pop("interleave", None)     # (the interleaved training call of the gradient checks updates buffers by design)
     c["layout"] = draw(st.sampled_from(["independent", "views", "views", "alias"]))
     c["second"] = draw(st.booleans())
+    c["second_seed"] = draw(st.sampled_from(["fresh", "first_root_grad"]))
+    c["stale"] = draw(st.booleans())
     if draw(st.integers(0, 2)) == 0:
         # exact zeros (and repeated values) are in every op's domain as far as mutation is concerned
         for x in c["xs"]:
